@@ -12,3 +12,19 @@ package utils
 //@     invariant 0 <= i && i <= len(a) && len(a) == len(b)
 //@     invariant forall(k, 0, i, asciiLower(a[k]) == asciiLower(b[k]))
 //@     decreases len(a) - i
+
+// ParseChunkSize: hex number, optional spaces, CR LF. A successful result is never negative.
+//@ func ParseChunkSize(r) n, err
+//@   props C01, C03, C14
+//@   requires r != nil
+//@   modifies r.pos, r.avail, r.failed, mem
+//@   allocates
+//@   top-ensures err == nil ==> n >= 0 || r.failed
+//@   loop 0:
+//@     invariant n >= 0 || r.failed
+
+//@ func SkipCRLF(reader) err
+//@   props C03, C14
+//@   requires reader != nil
+//@   modifies reader.pos, reader.avail, reader.failed, mem
+//@   allocates
